@@ -130,13 +130,15 @@ def Send.client (m : Send) (f : Frame) : Verdict Send :=
     else match findM m.streams id with
       | none => .ok m
       | some s => .ok { m with streams := setM m.streams { s with cRst := true } }
+  | .ping _ _ => .ok m                  -- judged by the Ping machine (contiguity above applies)
 
 /-- the peer sends a frame: update its own books -/
 def Send.peer (m : Send) : PFrame → Send
   | .settings vals =>
-    -- a SETTINGS_INITIAL_WINDOW_SIZE above 2^31-1 is the peer's own protocol violation: the
-    -- client owes a FLOW_CONTROL_ERROR, not an acknowledgement (RFC 9113 section 6.5.2)
-    if vals.any (fun p => p.1 == sInitialWindowSize && decide (p.2 > 2147483647)) then m
+    -- a SETTINGS_INITIAL_WINDOW_SIZE above 2^31-1 or a SETTINGS_MAX_FRAME_SIZE outside
+    -- [2^14, 2^24) is the peer's own protocol violation: the client owes a connection error, not an
+    -- acknowledgement (RFC 9113 section 6.5.2)
+    if vals.any (fun p => (p.1 == sInitialWindowSize && decide (p.2 > 2147483647)) || (p.1 == sMaxFrameSize && (decide (p.2 < 16384) || decide (p.2 > 16777215)))) then m
     else { m with pending := m.pending ++ [vals] }
   | .settingsAck => m
   | .windowUpdate id inc =>
@@ -149,7 +151,7 @@ def Send.peer (m : Send) : PFrame → Send
     | none => m
     | some s => { m with streams := setM m.streams { s with pRst := true } }
   | .goaway _ => m
-  | .headers id es =>
+  | .resp id es _ _ =>
     match findM m.streams id with
     | none => m
     | some s => { m with streams := setM m.streams { s with pEnd := s.pEnd || es } }
@@ -157,6 +159,8 @@ def Send.peer (m : Send) : PFrame → Send
     match findM m.streams id with
     | none => m
     | some s => { m with streams := setM m.streams { s with pEnd := s.pEnd || es } }
+  | .ping _ _ => m
+  | .pushPromise _ _ => m
 
 def Send.step (m : Send) : Event → Verdict Send
   | .c f => m.client f
@@ -223,7 +227,7 @@ def Recv.peer (m : Recv) : PFrame → Recv
     { m with connWin := m.connWin - (len + pad : Nat),
              streams := m.streams.map fun t =>
                if t.1 = id then (t.1, t.2.1 - (len + pad : Nat), t.2.2 && !es) else t }
-  | .headers id es =>
+  | .resp id es _ _ =>
     { m with streams := m.streams.map fun t => if t.1 = id then (t.1, t.2.1, t.2.2 && !es) else t }
   | .rst id _ =>
     { m with streams := m.streams.map fun t => if t.1 = id then (t.1, t.2.1, false) else t }
@@ -244,7 +248,87 @@ stalled: it has connection-level window and window on every stream it may still 
 def Recv.notStalled (m : Recv) : Bool :=
   decide (m.connWin > 0) && m.streams.all fun t => !t.2.2 || decide (t.2.1 > 0)
 
+/-! ## PING (RFC 9113 section 6.7) and PUSH_PROMISE (sections 6.6, 8.4)
+
+Two more independent machines. `Ping`: every PING the peer sends (without ACK) is answered by a
+PING with ACK carrying the same eight octets; an acknowledgement nobody asked for is rejected;
+at the end of a quiescent history no PING is unanswered. `Push`: a client that advertised
+SETTINGS_ENABLE_PUSH = 0 treats a PUSH_PROMISE as a connection error — after the peer's
+PUSH_PROMISE it sends nothing but RST_STREAM for the streams it had open (the GOAWAY of a
+connection error is not a frame of this model; the code writes it without flushing, so it
+reaches the peer only when one of those RST_STREAM writes beats the close of the socket). -/
+
+structure Ping where
+  /-- payloads of the peer's PINGs that are not acknowledged yet, oldest first -/
+  pending : List Nat
+  deriving DecidableEq, Repr, Inhabited
+
+def Ping.init : Ping := { pending := [] }
+
+def Ping.step (m : Ping) : Event → Verdict Ping
+  | .p (.ping false d) => .ok { pending := m.pending ++ [d] }
+  | .c (.ping true d) =>
+    if m.pending.contains d then .ok { pending := m.pending.erase d }
+    else .error "ping-ack-without-ping"
+  | _ => .ok m
+
+def Ping.run (m : Ping) : List Event → Verdict Ping
+  | [] => .ok m
+  | e :: es => match m.step e with
+    | .error r => .error r
+    | .ok m' => Ping.run m' es
+
+def Ping.final (m : Ping) : Verdict Unit :=
+  if m.pending.isEmpty then .ok () else .error "ping-not-acknowledged"
+
+structure Push where
+  /-- the client advertised SETTINGS_ENABLE_PUSH = 0 -/
+  off : Bool
+  /-- … and the peer has acknowledged that SETTINGS frame -/
+  acked : Bool
+  /-- the peer has sent a PUSH_PROMISE since -/
+  seen : Bool
+  deriving DecidableEq, Repr, Inhabited
+
+def Push.init : Push := { off := false, acked := false, seen := false }
+
+def Push.step (m : Push) : Event → Verdict Push
+  | .p (.pushPromise _ _) => .ok { m with seen := m.seen || (m.off && m.acked) }
+  | .p .settingsAck => .ok { m with acked := m.off }
+  | .p _ => .ok m
+  | .c f =>
+    if m.seen then
+      -- tearing the connection down may reset the streams that were open (and send GOAWAY, which
+      -- is not a frame of this model); anything else means the client carried on
+      match f with
+      | .rst _ => .ok m
+      | _ => .error "frame-after-refused-push-promise"
+    else match f with
+      | .settings vals =>
+        match lastSetting vals sEnablePush with
+        | some v => .ok { m with off := v == 0, acked := false }
+        | none => .ok m
+      | _ => .ok m
+
+def Push.run (m : Push) : List Event → Verdict Push
+  | [] => .ok m
+  | e :: es => match m.step e with
+    | .error r => .error r
+    | .ok m' => Push.run m' es
+
 /-! ## The monitor -/
+
+/-- verdict of the two small machines -/
+def verdictExtra (h : List Event) : String :=
+  match Ping.init.run h with
+  | .error r => "violation:" ++ r
+  | .ok m =>
+    match m.final with
+    | .error r => "violation:" ++ r
+    | .ok _ =>
+      match Push.init.run h with
+      | .error r => "violation:" ++ r
+      | .ok _ => "ok"
 
 /-- `Monitor h = true` iff the strict peer accepts every client frame of the history and is
 owed nothing at its end. -/
@@ -253,6 +337,12 @@ def Monitor (h : List Event) : Bool :=
    | .error _ => false
    | .ok m => match m.final with | .error _ => false | .ok _ => true) &&
   (match Recv.init.run h with
+   | .error _ => false
+   | .ok _ => true) &&
+  (match Ping.init.run h with
+   | .error _ => false
+   | .ok m => match m.final with | .error _ => false | .ok _ => true) &&
+  (match Push.init.run h with
    | .error _ => false
    | .ok _ => true)
 
@@ -266,7 +356,7 @@ def verdict (h : List Event) : String :=
     | .ok _ =>
       match Recv.init.run h with
       | .error r => "violation:" ++ r
-      | .ok _ => "ok"
+      | .ok _ => verdictExtra h
 
 /-- the same plus the stall check, for histories that end with everything consumed -/
 def verdictConsumed (h : List Event) : String :=
@@ -377,6 +467,6 @@ def verdictTolerant (h : List Event) (consumed : Bool) : String :=
     | .ok _ =>
       match Recv.init.run h with
       | .error r => "violation:" ++ r
-      | .ok m => if consumed && !m.notStalled then "violation:peer-stalled" else "ok"
+      | .ok m => if consumed && !m.notStalled then "violation:peer-stalled" else verdictExtra h
 
 end Req.H2.Monitor
